@@ -163,15 +163,23 @@ class ModuleV(V):
 
 
 class Op(V):
-    __slots__ = ("op", "args", "_h")
+    """hash-consed: structurally equal terms are the same object"""
+    __slots__ = ("op", "args", "_h", "__weakref__")
+    _table = {}
 
-    def __init__(self, op, *args):
-        self.op = op
-        self.args = tuple(args)
-        self._h = hash(("Op", op, self.args))
+    def __new__(cls, op, *args):
+        key = (op, args)
+        t = cls._table.get(key)
+        if t is None:
+            t = object.__new__(cls)
+            t.op = op
+            t.args = args
+            t._h = hash(key)
+            cls._table[key] = t
+        return t
 
     def __eq__(self, o):
-        return isinstance(o, Op) and o._h == self._h and o.op == self.op and o.args == self.args
+        return self is o
 
     def __hash__(self):
         return self._h
@@ -180,19 +188,25 @@ class Op(V):
         return self.args
 
     def __repr__(self):
-        r = "%s(%s)" % (self.op, ", ".join(map(repr, self.args)))
-        return r if len(r) < MAX_REPR else r[:MAX_REPR - 3] + "..."
+        return brepr(self)
 
 
 class Ite(V):
     __slots__ = ("c", "a", "b", "_h")
+    _table = {}
 
-    def __init__(self, c, a, b):
-        self.c, self.a, self.b = c, a, b
-        self._h = hash(("Ite", c, a, b))
+    def __new__(cls, c, a, b):
+        key = (c, a, b)
+        t = cls._table.get(key)
+        if t is None:
+            t = object.__new__(cls)
+            t.c, t.a, t.b = c, a, b
+            t._h = hash(("Ite",) + key)
+            cls._table[key] = t
+        return t
 
     def __eq__(self, o):
-        return isinstance(o, Ite) and o._h == self._h and o.c == self.c and o.a == self.a and o.b == self.b
+        return self is o
 
     def __hash__(self):
         return self._h
@@ -201,21 +215,28 @@ class Ite(V):
         return (self.c, self.a, self.b)
 
     def __repr__(self):
-        r = "ite(%r, %r, %r)" % (self.c, self.a, self.b)
-        return r if len(r) < MAX_REPR else r[:MAX_REPR - 3] + "..."
+        return brepr(self)
 
 
 class Lin(V):
     """const + sum(coeff * term) over integer-valued terms (coeff != 0)."""
     __slots__ = ("const", "terms", "_h")
+    _table = {}
 
-    def __init__(self, const, terms):
-        self.const = const
-        self.terms = tuple(sorted(terms, key=lambda tc: repr(tc[0])))
-        self._h = hash(("Lin", const, self.terms))
+    def __new__(cls, const, terms):
+        terms = tuple(sorted(terms, key=lambda tc: _sort_key(tc[0])))
+        key = (const, terms)
+        t = cls._table.get(key)
+        if t is None:
+            t = object.__new__(cls)
+            t.const = const
+            t.terms = terms
+            t._h = hash(("Lin",) + key)
+            cls._table[key] = t
+        return t
 
     def __eq__(self, o):
-        return isinstance(o, Lin) and o._h == self._h and o.const == self.const and o.terms == self.terms
+        return self is o
 
     def __hash__(self):
         return self._h
@@ -224,13 +245,68 @@ class Lin(V):
         return tuple(t for t, _ in self.terms)
 
     def __repr__(self):
-        parts = []
-        for t, c in self.terms:
-            parts.append(("%r" % (t,)) if c == 1 else "%d*%r" % (c, t))
-        if self.const or not parts:
-            parts.append(str(self.const))
-        r = "(" + " + ".join(parts) + ")"
-        return r if len(r) < MAX_REPR else r[:MAX_REPR - 3] + "..."
+        return brepr(self)
+
+
+_SK = {}
+
+
+def _sort_key(t):
+    """deterministic total order for canonical forms (cached structural key)"""
+    k = _SK.get(id(t))
+    if k is None or k[0] is not t:
+        if isinstance(t, Op):
+            sk = ("O", t.op, len(t.args), tuple(_sort_key(a) for a in t.args))
+        elif isinstance(t, Ite):
+            sk = ("I", _sort_key(t.c), _sort_key(t.a), _sort_key(t.b))
+        elif isinstance(t, Lin):
+            sk = ("L", t.const, tuple((_sort_key(x), c) for x, c in t.terms))
+        else:
+            sk = ("Z", type(t).__name__, repr(t))
+        sk = hash(sk), sk if not isinstance(t, (Op, Ite, Lin)) else None
+        _SK[id(t)] = (t, sk)
+        return sk
+    return k[1]
+
+
+def brepr(t, budget=None):
+    """size-bounded rendering (terms are DAGs: a naive repr is exponential)"""
+    if budget is None:
+        budget = [MAX_REPR]
+
+    def rec(x, depth):
+        if budget[0] <= 0:
+            return "..."
+        if isinstance(x, Op):
+            if depth > 12:
+                r = x.op + "(...)"
+            else:
+                parts = []
+                for a in x.args:
+                    if budget[0] <= 0:
+                        parts.append("...")
+                        break
+                    parts.append(rec(a, depth + 1))
+                r = "%s(%s)" % (x.op, ", ".join(parts))
+                return r
+        elif isinstance(x, Ite):
+            if depth > 12:
+                r = "ite(...)"
+            else:
+                return "ite(%s, %s, %s)" % (rec(x.c, depth + 1), rec(x.a, depth + 1), rec(x.b, depth + 1))
+        elif isinstance(x, Lin):
+            parts = []
+            for y, c in x.terms:
+                ry = rec(y, depth + 1)
+                parts.append(ry if c == 1 else "%d*%s" % (c, ry))
+            if x.const or not parts:
+                parts.append(str(x.const))
+            return "(" + " + ".join(parts) + ")"
+        else:
+            r = repr(x)
+        budget[0] -= len(r)
+        return r
+    return rec(t, 0)
 
 
 TRUE = Const(True)
@@ -367,7 +443,7 @@ def mul(a, b):
         # symbol * int: treat as numeric unless evidently a string
         c, d = _lin_parts(b)
         return _mk_lin(a.v * c, {t: a.v * k for t, k in d.items()})
-    if repr(a) > repr(b):
+    if _sort_key(a) > _sort_key(b):
         a, b = b, a
     return Op("mul", a, b)
 
@@ -399,7 +475,7 @@ def binop(op, a, b):
             return Const(_BIN[op](a.v, b.v))
         except Exception:
             pass
-    if op in ("bitand", "bitor", "bitxor") and repr(a) > repr(b):
+    if op in ("bitand", "bitor", "bitxor") and _sort_key(a) > _sort_key(b):
         a, b = b, a
     return Op(op, a, b)
 
@@ -438,12 +514,32 @@ def compare(op, a, b):
             return ite(a.c, compare(op, a.a, b), compare(op, a.b, b))
         if isinstance(b, Ite) and isinstance(a, Const):
             return ite(b.c, compare(op, a, b.a), compare(op, a, b.b))
+    # boolean-valued term compared with a bool constant
+    if op in ("is", "isnot", "eq", "ne"):
+        for x, y in ((a, b), (b, a)):
+            if isinstance(y, Const) and isinstance(y.v, bool) and _boolish(x):
+                same = op in ("is", "eq")
+                return x if (y.v is True) == same else not_(x)
     # canonical orientation: constant on the right
     if isinstance(a, Const) and not isinstance(b, Const) and op in _CMP_SWAP:
         a, b, op = b, a, _CMP_SWAP[op]
     if op in ("eq", "ne") and a == b and not isinstance(a, Undef):
         return Const(op == "eq")
     return Op(op, a, b)
+
+
+_BOOL_OPS = {"eq", "ne", "lt", "le", "gt", "ge", "in", "notin", "is", "isnot", "not", "and", "or",
+             "truthy", "exists", "isinstance"}
+
+
+def _boolish(x):
+    if isinstance(x, Op):
+        return x.op in _BOOL_OPS
+    if isinstance(x, Ite):
+        return _boolish(x.a) and _boolish(x.b)
+    if isinstance(x, Const):
+        return isinstance(x.v, bool)
+    return isinstance(x, Sym) and x.kind == "exc"
 
 
 def truthy(v):
